@@ -6,6 +6,9 @@ package blocklib
 import (
 	"encoding/binary"
 	"fmt"
+	"runtime"
+	"sync"
+	"sync/atomic"
 
 	"github.com/piotrnar/gocoin/lib/btc"
 	"verif/ref/wire"
@@ -122,4 +125,159 @@ func Decode(b []byte, r *Ref) error {
 		}
 	}
 	return nil
+}
+
+// ---------------------------------------------------------------------------------------------
+// concurrent decoding and hashing
+
+// ConcCase: Workers goroutines start together; each owns TxPerWorker transactions derived from Seed (WitPercent
+// of them with a witness; stripped sizes drawn from Sizes, as many outputs or as one long scriptSig) and, when
+// BlockPacks > 0, one block of about that many 4096-byte hashing packs.  For Rounds rounds every worker runs
+// btc.NewTx + Tx.SetHash(raw) on each of its transactions (what ParseTxNet does per connection) and - every
+// BlockEvery-th round - NewBlock + BuildTxList on its block; everything reported is compared with the reference
+// values computed sequentially beforehand.
+type ConcCase struct {
+	Seed        uint64 `json:"seed"`
+	Workers     int    `json:"workers"`
+	Rounds      int    `json:"rounds"`
+	TxPerWorker int    `json:"tx_per_worker"`
+	WitPercent  int    `json:"wit_percent"`
+	Sizes       []int  `json:"sizes"`
+	BlockPacks  int    `json:"block_packs"`
+	BlockEvery  int    `json:"block_every"`
+	Procs       int    `json:"procs"` // GOMAXPROCS while the workers run (0 = leave)
+}
+
+type concTx struct {
+	raw                        []byte
+	txid, wtxid                [32]byte
+	size, nowit, weight, vsize int
+	witness                    bool
+}
+
+func concBuildTx(s uint64, witPercent int, sizes []int) *wire.Tx {
+	tx := &wire.Tx{Version: 2, LockTime: uint32(s >> 50)}
+	size := 100
+	if len(sizes) > 0 {
+		size = sizes[int(s>>8)%len(sizes)]
+	}
+	var in wire.TxIn
+	copy(in.PrevHash[:], fill(s, 32))
+	in.Sequence = 0xfffffffd
+	nout := 1 + int(s>>16&1)
+	if s>>20&1 == 0 {
+		in.ScriptSig = fill(s^1, max(0, size-80)) // one long script
+	} else {
+		nout = max(1, (size-60)/31) // many outputs
+	}
+	if int(s>>24%100) < witPercent {
+		in.Witness = [][]byte{fill(s^2, 4+int(s>>32&63)), fill(s^3, 33)}
+	}
+	tx.In = []wire.TxIn{in}
+	for j := 0; j < nout; j++ {
+		tx.Out = append(tx.Out, wire.TxOut{Value: mix(s+uint64(j)) % 21e14, PkScript: fill(s^uint64(8+j), 22)})
+	}
+	return tx
+}
+
+type ConcStats struct {
+	SetHashCalls, WitnessCalls, BlockDecodes int64
+}
+
+// RunConcurrent executes the case; the error (if any) is the first disagreement or panic of any worker.
+func RunConcurrent(c ConcCase) (st ConcStats, err error) {
+	if c.Workers < 1 || c.TxPerWorker < 1 {
+		return st, nil
+	}
+	type worker struct {
+		txs   []concTx
+		block []byte
+		ref   *Ref
+	}
+	ws := make([]worker, c.Workers)
+	for w := range ws {
+		for j := 0; j < c.TxPerWorker; j++ {
+			t := concBuildTx(mix(c.Seed^uint64(w)<<20^uint64(j)), c.WitPercent, c.Sizes)
+			ct := concTx{raw: t.Serialize(true), txid: t.TxID(), wtxid: t.WTxID(), weight: t.Weight(), vsize: t.VSize(), witness: t.HasWitness()}
+			ct.size, ct.nowit = len(ct.raw), len(t.Serialize(false))
+			ws[w].txs = append(ws[w].txs, ct)
+		}
+		if c.BlockPacks > 0 {
+			pc := ParCase{Seed: c.Seed + uint64(w), ScriptLen: 107, WitEvery: 2}
+			ws[w].block = Build(pc, c.BlockPacks*4096/200)
+			if ws[w].ref, err = MakeRef(ws[w].block); err != nil {
+				return st, err
+			}
+		}
+	}
+	if c.Procs > 0 {
+		defer runtime.GOMAXPROCS(runtime.GOMAXPROCS(c.Procs))
+	}
+	var (
+		wg       sync.WaitGroup
+		start    = make(chan struct{})
+		stop     atomic.Bool
+		mu       sync.Mutex
+		firstErr error
+	)
+	fail := func(e error) {
+		mu.Lock()
+		if firstErr == nil {
+			firstErr = e
+		}
+		mu.Unlock()
+		stop.Store(true)
+	}
+	for w := range ws {
+		wg.Add(1)
+		go func(w int) {
+			defer wg.Done()
+			defer func() {
+				if p := recover(); p != nil {
+					fail(fmt.Errorf("worker %d of %d: panic while decoding/hashing concurrently: %v", w, c.Workers, p))
+				}
+			}()
+			me := &ws[w]
+			var calls, wit, blocks int64
+			<-start
+			for r := 0; r < c.Rounds && !stop.Load(); r++ {
+				for j := range me.txs {
+					t := &me.txs[j]
+					tx, n := btc.NewTx(t.raw)
+					if tx == nil || n != len(t.raw) {
+						fail(fmt.Errorf("worker %d round %d: btc.NewTx refuses a valid %d-byte transaction (consumed %d)", w, r, len(t.raw), n))
+						return
+					}
+					tx.SetHash(t.raw)
+					calls++
+					if t.witness {
+						wit++
+					}
+					if tx.Hash.Hash != t.txid {
+						fail(fmt.Errorf("worker %d of %d, round %d: txid %x after NewTx+SetHash, the double-SHA256 of the stripped serialisation is %x (witness=%v, %d bytes, stripped %d; the same call gives the right txid when nothing else runs)",
+							w, c.Workers, r, tx.Hash.Hash, t.txid, t.witness, t.size, t.nowit))
+						return
+					}
+					if tx.WTxID().Hash != t.wtxid || int(tx.Size) != t.size || int(tx.NoWitSize) != t.nowit || tx.Weight() != t.weight || tx.VSize() != t.vsize {
+						fail(fmt.Errorf("worker %d of %d, round %d: wtxid/Size/NoWitSize/Weight/VSize %x/%d/%d/%d/%d, reference %x/%d/%d/%d/%d",
+							w, c.Workers, r, tx.WTxID().Hash, tx.Size, tx.NoWitSize, tx.Weight(), tx.VSize(), t.wtxid, t.size, t.nowit, t.weight, t.vsize))
+						return
+					}
+				}
+				if me.block != nil && c.BlockEvery > 0 && r%c.BlockEvery == 0 {
+					blocks++
+					if e := Decode(me.block, me.ref); e != nil {
+						fail(fmt.Errorf("worker %d of %d, round %d (blocks decoded concurrently): %v", w, c.Workers, r, e))
+						return
+					}
+				}
+			}
+			atomic.AddInt64(&st.SetHashCalls, calls)
+			atomic.AddInt64(&st.WitnessCalls, wit)
+			atomic.AddInt64(&st.BlockDecodes, blocks)
+		}(w)
+	}
+	close(start)
+	wg.Wait()
+	return st, firstErr
 }
